@@ -176,6 +176,7 @@ fn run_case(line: &[&str], uni: &[&'static Metadata<'static>]) -> String {
 
 fn run_ops(d: &Dispatch, ops: &[&str], uni: &[&'static Metadata<'static>]) -> String {
     let mut interest: HashMap<usize, Interest> = HashMap::new();
+    let hint_gate = if std::env::var("TV_HINT_GATE").is_ok() { let _ = d; Some(tracing_core::LevelFilter::current()) } else { None };
     let mut spans: HashMap<usize, span::Id> = HashMap::new();
     let mut outs: Vec<String> = Vec::new();
     RECV.with(|r| r.borrow_mut().clear());
@@ -189,8 +190,12 @@ fn run_ops(d: &Dispatch, ops: &[&str], uni: &[&'static Metadata<'static>]) -> St
                 let mi: usize = op[1].parse().unwrap();
                 let m = uni[mi];
                 FLAG.with(|f| f.set(op[2] == "1"));
-                let i = interest.entry(mi).or_insert_with(|| d.register_callsite(m)).clone();
-                let enabled = !i.is_never() && (i.is_always() || d.enabled(m));
+                // the macros' first gate: the level against the stack's max-level hint (as published when the
+                // dispatcher was built); only with TV_HINT_GATE, so that streams which log the callbacks are unaffected
+                let enabled = if hint_gate.map(|h| *m.level() > h).unwrap_or(false) { false } else {
+                    let i = interest.entry(mi).or_insert_with(|| d.register_callsite(m)).clone();
+                    !i.is_never() && (i.is_always() || d.enabled(m))
+                };
                 match kind {
                     "pr" => outs.push(format!("p:{}", if enabled { 1 } else { 0 })),
                     "ev" => {
